@@ -3412,6 +3412,19 @@ func inRange(val *big.Int, low *big.Int, high *big.Int) bool {
 	return -1 < val.Cmp(low) && val.Cmp(high) < 1
 }
 
+// unsignedBigIntValueParser is like bigIntValueParser,
+// but rejects a sign prefix, like the parsers of the fixed-size unsigned integer types
+// (big.Int.SetString accepts "+1" and "-0", and negative values in general)
+func unsignedBigIntValueParser(convert func(*big.Int) (Value, bool)) StringValueParser {
+	parser := bigIntValueParser(convert)
+	return func(gauge common.Gauge, input string) OptionalValue {
+		if len(input) > 0 && (input[0] == '+' || input[0] == '-') {
+			return NilOptionalValue
+		}
+		return parser(gauge, input)
+	}
+}
+
 var StringValueParsers = func() map[string]TypedStringValueParser {
 	parsers := map[string]TypedStringValueParser{}
 
@@ -3477,7 +3490,7 @@ var StringValueParsers = func() map[string]TypedStringValueParser {
 		},
 		{
 			ReceiverType: sema.UInt128Type,
-			Parser: bigIntValueParser(func(b *big.Int) (v Value, ok bool) {
+			Parser: unsignedBigIntValueParser(func(b *big.Int) (v Value, ok bool) {
 				if ok = inRange(b, sema.UInt128TypeMinIntBig, sema.UInt128TypeMaxIntBig); ok {
 					v = NewUnmeteredUInt128ValueFromBigInt(b)
 				}
@@ -3486,7 +3499,7 @@ var StringValueParsers = func() map[string]TypedStringValueParser {
 		},
 		{
 			ReceiverType: sema.UInt256Type,
-			Parser: bigIntValueParser(func(b *big.Int) (v Value, ok bool) {
+			Parser: unsignedBigIntValueParser(func(b *big.Int) (v Value, ok bool) {
 				if ok = inRange(b, sema.UInt256TypeMinIntBig, sema.UInt256TypeMaxIntBig); ok {
 					v = NewUnmeteredUInt256ValueFromBigInt(b)
 				}
@@ -3495,7 +3508,7 @@ var StringValueParsers = func() map[string]TypedStringValueParser {
 		},
 		{
 			ReceiverType: sema.UIntType,
-			Parser: bigIntValueParser(func(b *big.Int) (Value, bool) {
+			Parser: unsignedBigIntValueParser(func(b *big.Int) (Value, bool) {
 				return NewUnmeteredUIntValueFromBigInt(b), true
 			}),
 		},
@@ -3519,7 +3532,7 @@ var StringValueParsers = func() map[string]TypedStringValueParser {
 		},
 		{
 			ReceiverType: sema.Word128Type,
-			Parser: bigIntValueParser(func(b *big.Int) (v Value, ok bool) {
+			Parser: unsignedBigIntValueParser(func(b *big.Int) (v Value, ok bool) {
 				if ok = inRange(b, sema.Word128TypeMinIntBig, sema.Word128TypeMaxIntBig); ok {
 					v = NewUnmeteredWord128ValueFromBigInt(b)
 				}
@@ -3528,7 +3541,7 @@ var StringValueParsers = func() map[string]TypedStringValueParser {
 		},
 		{
 			ReceiverType: sema.Word256Type,
-			Parser: bigIntValueParser(func(b *big.Int) (v Value, ok bool) {
+			Parser: unsignedBigIntValueParser(func(b *big.Int) (v Value, ok bool) {
 				if ok = inRange(b, sema.Word256TypeMinIntBig, sema.Word256TypeMaxIntBig); ok {
 					v = NewUnmeteredWord256ValueFromBigInt(b)
 				}
